@@ -54,6 +54,7 @@ def run(F, chk):
                 rb.ok(key, diff.where(), "constructed", nontrivial=False)
             else:
                 rb.violation(key, diff.where(), "ConfigState::diff never constructs RequestType::%s, the %s verb for objects created by %s" % (need, why, V))
+    sort_order_rule(F, chk)
     # ---------------- R-C06-c --------------------------------------------------
     rc = chk.rule("R-C06-c", "T12", "the key pairing backends across the two states contains id and address", floor=2)
     n = 0
@@ -81,3 +82,28 @@ def run(F, chk):
                     rc.violation(key, b.where(bi, si), "backends are paired across the two states by (cluster, backend_id) only: two backends "
                                  "sharing an id at different addresses collapse, and diff adds/removes the wrong one")
     rc.fn(*fns)
+
+
+def sort_order_rule(F, chk):
+    """R-C06-d: ConfigState keeps each cluster's backends sorted with Backend::cmp and diff merge-joins the two
+    lists on (cluster_id, backend_id): the merge is only correct if that key is a prefix of the sort order."""
+    r = chk.rule("R-C06-d", "T8", "Backend's sort order starts with the merge-join key of diff (cluster_id, backend_id)", floor=1)
+    p = "<%s as core::cmp::Ord>::cmp" % BACKEND
+    if not r.require(F.has(p), "Backend::cmp not found"):
+        return
+    b = F.body(p)
+    r.fn(p)
+    order = []
+    for bi, t in b.calls():
+        c = callee_of(t)
+        if c.endswith("core::cmp::Ord>::cmp") or c.endswith("::socketaddr_cmp") or c.endswith("Ord::cmp"):
+            flds = set()
+            for a in t["args"]:
+                flds |= {f for (ad, f) in guards.slice_of_operand(b, a)["fields"] if ad == BACKEND}
+            if len(flds) == 1:
+                order.append(list(flds)[0])
+    key = "Backend::cmp|key prefix"
+    if order[:2] == ["cluster_id", "backend_id"]:
+        r.ok(key, b.where(), "comparison chain: %s" % order)
+    else:
+        r.violation(key, b.where(), "Backend::cmp compares %s: (cluster_id, backend_id) is no longer a prefix of the order in which ConfigState keeps backends sorted, so diff's merge-join over (cluster_id, backend_id) mis-pairs backends" % order)
